@@ -4108,6 +4108,11 @@ func listOmitsCommas(elems []ast.Expr, lbrack, rbrack token.Pos) bool {
 // Keying off tokenisation rather than RelPos means the space is emitted
 // by construction, even for programmatic ASTs that carry no RelPos.
 func unaryOpMergesWithOperand(op token.Token, operand ast.Expr) bool {
+	if lit, ok := operand.(*ast.BasicLit); ok {
+		// A programmatic AST (for instance an exported value) may carry a
+		// negative number as a single literal: `<` + `-1` forms `<-`.
+		return op == token.LSS && strings.HasPrefix(lit.Value, "-")
+	}
 	inner, ok := operand.(*ast.UnaryExpr)
 	if !ok {
 		return false
